@@ -64,7 +64,14 @@ def run_flatten_elem_case(p):
                 return ('pair', rng.choice(['fn_parent', 'fn_value']), rng.choice([0, 1, 2]))
             if rng.random() < 0.65:
                 return ('elem', rng.choice(['lt', 'le', 'gt', 'ge', 'eq', 'ne']), rng.choice([1, 2, 3, 4]))
-            return ('par', rng.choice(['lt', 'ge', 'eq', 'ne']), rng.choice([1, 2, 3]))
+            kk = rng.random()
+            if kk < 0.4:
+                return ('par', rng.choice(['lt', 'ge', 'eq', 'ne']), rng.choice([1, 2, 3]))
+            # literal-free conditions on the parent alone (a literal's id is part of the operators' cache keys, so only these
+            # are ever replayed from a result cache - for every further element of the same parent)
+            if kk < 0.75:
+                return ('parnl', rng.choice(['lt', 'ge', 'eq', 'ne', 'le']))
+            return ('parflag',)
         k = rng.random()
         if k < 0.4:
             return ('and', gen(d - 1), gen(d - 1))
@@ -77,6 +84,10 @@ def run_flatten_elem_case(p):
             return O.OPS[c[1]](e, c[2])
         if c[0] == 'par':
             return O.OPS[c[1]](o.size, c[2])
+        if c[0] == 'parnl':
+            return O.OPS[c[1]](o.size, o.props['k'])
+        if c[0] == 'parflag':
+            return bool(o.flag)
         if c[0] == 'pair':
             return e <= o.size + c[2]
         if c[0] == 'not':
@@ -88,6 +99,10 @@ def run_flatten_elem_case(p):
             return O.OPS[c[1]](it, c[2])
         if c[0] == 'par':
             return O.OPS[c[1]](b.size, c[2])
+        if c[0] == 'parnl':
+            return O.OPS[c[1]](b.size, b.props['k'])
+        if c[0] == 'parflag':
+            return b.flag
         if c[0] == 'pair':
             return O.elem_within(it, b, slack=c[2]) if c[1] == 'fn_parent' else O.elem_within(elem=it, parent=b, slack=c[2])
         if c[0] == 'not':
@@ -95,8 +110,19 @@ def run_flatten_elem_case(p):
         return (and_ if c[0] == 'and' else or_)(build(c[1], b, it), build(c[2], b, it))
 
     def n_elem(c):
-        return 1 if c[0] in ('elem', 'pair') else (0 if c[0] == 'par' else sum(n_elem(x) for x in c[1:]))
+        return 1 if c[0] in ('elem', 'pair') else (0 if c[0] in ('par', 'parnl', 'parflag') else sum(n_elem(x) for x in c[1:]))
     cond = gen(p.get('depth', 2))
+    if p.get('or_and_parent'):
+        # or_(and_(<condition on the element>, <literal-free condition on the parent alone>), <another condition>): the
+        # conjunction's cached result for the parent-only operand is looked up again for every further element of the parent
+        first = ('and', ('elem', rng.choice(['lt', 'le', 'gt', 'ge', 'ne']), rng.choice([1, 2, 3, 4])),
+                 rng.choice([('parnl', rng.choice(['lt', 'ge', 'eq', 'ne', 'le'])), ('parflag',)]))
+        if rng.random() < 0.3:
+            first = ('and', first[2], first[1])
+        cond = ('or', first, gen(1)) if rng.random() < 0.8 else ('or', gen(1), first)
+        for o in dom:
+            if len(o.tags) < 2:
+                o.tags = rng.sample([0, 1, 2, 3, 4, 5], rng.randint(2, 4))
     try:
         with symbolic_mode():
             b = let(type_=O.Item, domain=dom)
